@@ -1357,8 +1357,20 @@ class ManifestRecursiveLoader:
 
             # do we have Manifest in this directory?
             new_ignore_paths = []
-            if want_manifest and manifest_stack[-1][1] != relpath:
+            create = (want_manifest
+                      and manifest_stack[-1][1] != relpath)
+            if create:
                 mpath = os.path.join(relpath, 'Manifest')
+                mfe = entry_dict.get(mpath, (None, None))[1]
+                if (mfe is not None and mfe.tag == 'MANIFEST'
+                        and mpath in self.loaded_manifests):
+                    # created by a previous update on this loader
+                    # and not saved yet: go on using it
+                    del entry_dict[mpath]
+                    manifest_stack.append(
+                        (mpath, relpath, self.loaded_manifests[mpath]))
+                    create = False
+            if create:
                 m = self.create_manifest(mpath)
                 manifest_stack.append((mpath, relpath, m))
                 fe = ManifestEntryMANIFEST(mpath, 0, {})
@@ -1428,6 +1440,11 @@ class ManifestRecursiveLoader:
         for relpath, me in entry_dict.items():
             mpath, fe = me
             if fe.tag == 'IGNORE':
+                continue
+            if (fe.tag == 'MANIFEST' and relpath in self.loaded_manifests
+                    and relpath in self.updated_manifests):
+                # not a removed file but a Manifest created by
+                # a previous update on this loader and not saved yet
                 continue
 
             self.loaded_manifests[mpath].entries.remove(fe)
